@@ -25,6 +25,7 @@ type target struct {
 	ret    string // Lean result type ("" = Bool)
 	arith  string // integer arithmetic of non-constant operands: "" / "u32" (wraps mod 2^32), "u64" (wraps mod 2^64), "nat" (Go int assumed non-negative, no overflow; subtraction unsupported)
 	except bool   // the last Go result is an error: `nil` -> .ok (other results), an error variable -> .error "Name"
+	gosig  string // if set: the Go signature (types.ExprString of the FuncType) the Lean parameter list stands for; any change of a parameter / result TYPE (e.g. int -> uint32, invisible to a translation over Nat) is a translator error
 	kind   string // "" = whole function body; "weightLoop", "bftGuards", "prevoteThreshold", "commitGuards" = fragment extraction (see below)
 }
 
@@ -38,8 +39,8 @@ var targets = []target{
 	{file: "pkg/consensus/forkchoice/fork_choice.go", recv: "forkChoice", name: "IsTieBreak", lean: "fcIsTieBreak", params: "(c : FC)"},
 	{file: "pkg/consensus/forkchoice/fork_choice.go", recv: "forkChoice", name: "IsDifferentChain", lean: "fcIsDifferentChain", params: "(c : FC)"},
 	{file: "pkg/consensus/liskbft/api.go", recv: "API", name: "HeaderHasPriority", lean: "headerHasPriority", params: "(header : Hdr) (height maxHeightPrevoted maxHeightPreviouslyForged : Nat)"},
-	{file: "pkg/codec/reader.go", name: "varintShortestSize", lean: "varintShortestSize", params: "(data : Nat)", ret: "Nat", arith: "u64"},
-	{file: "pkg/codec/key.go", name: "readKey", lean: "readKey", params: "(val : Nat)", ret: "Except String (Nat × Nat)", arith: "nat", except: true},
+	{file: "pkg/codec/reader.go", name: "varintShortestSize", lean: "varintShortestSize", params: "(data : Nat)", ret: "Nat", arith: "u64", gosig: "func(data uint64) int"},
+	{file: "pkg/codec/key.go", name: "readKey", lean: "readKey", params: "(val : Nat)", ret: "Except String (Nat × Nat)", arith: "nat", except: true, gosig: "func(val int) (int, int, error)"},
 	{file: "pkg/consensus/liskbft/api.go", recv: "API", name: "SetBFTParameters", lean: "aggregateBFTWeightStep", params: "(aggregateBFTWeight bftWeight : Nat)", ret: "Nat × Nat", arith: "u64", kind: "weightLoop"},
 	{file: "pkg/consensus/liskbft/api.go", recv: "API", name: "SetBFTParameters", lean: "setBFTParametersGuards", params: "(aggregateBFTWeight precommitThreshold certificateThreshold : Nat)", arith: "u64", kind: "bftGuards"},
 	{file: "pkg/consensus/liskbft/api.go", recv: "API", name: "SetBFTParameters", lean: "prevoteThresholdOf", params: "(aggregateBFTWeight : Nat)", ret: "Nat", arith: "u64", kind: "prevoteThreshold"},
@@ -262,6 +263,10 @@ func (t *tr) expr(e ast.Expr) string {
 		if id, ok := x.Fun.(*ast.Ident); ok {
 			// conversions uint32(x), int(x): value preserving in the ranges used
 			if (id.Name == "uint32" || id.Name == "int" || id.Name == "uint64") && len(x.Args) == 1 {
+				if t.arith == "nat" && id.Name == "uint32" {
+					// operands are unbounded naturals standing for a 64-bit Go int: uint32(x) cuts bits
+					return t.fail(x, "narrowing conversion uint32(…) in a target translated over natural numbers")
+				}
 				return t.expr(x.Args[0])
 			}
 			// call of another translated plain function
@@ -739,6 +744,10 @@ func main() {
 		fd := findFunc(f, tg.recv, tg.name)
 		if fd == nil {
 			fmt.Fprintf(os.Stderr, "fngen: %s: function %s.%s not found\n", tg.file, tg.recv, tg.name)
+			os.Exit(1)
+		}
+		if got := types.ExprString(fd.Type); tg.gosig != "" && got != tg.gosig {
+			fmt.Fprintf(os.Stderr, "fngen: %s: signature of %s is `%s`, the translation (parameters %s over natural numbers, arithmetic %q) is declared for `%s`: integer widths of parameters/results changed — conversions at the call sites may truncate\n", tg.file, tg.name, got, tg.params, tg.arith, tg.gosig)
 			os.Exit(1)
 		}
 		t := &tr{fset: fset, arith: tg.arith, except: tg.except}
